@@ -67,6 +67,16 @@ class MuxWorld(World):
             if rng.chance(0.4):
                 r["addr"] = rng.below(1 << aw)
             regs.append(r)
+        if rng.chance(0.25):
+            # packed layout: back-to-back registers of odd sizes -> many unaligned multi-chunk
+            # registers whose shadow chunks collide (the shape that needs the sharing limit)
+            al = 0
+            regs = [{"w": rng.choice([1, dw, dw + 1, 2 * dw, 2 * dw + 1, 3 * dw, 4 * dw + 1]),
+                     "acc": rng.choice(["r", "w", "rw", "rw"]), "size": 0, "align": None,
+                     "addr": None} for _ in range(rng.range(2, 6))]
+            for r in regs:
+                r["size"] = (r["w"] + dw - 1) // dw
+            aw = max(aw, 4)
         ov = rng.choice([None, None, 0, 1, 2, 3])
         ov2 = rng.choice([x for x in [None, 0, 1, 2, 3] if x != ov])
         mode = rng.wchoice([("proto", 5), ("mixed", 3), ("raw", 2)])
